@@ -21,6 +21,7 @@ const (
 	FEq                    // (L == R) is Val
 	FCond                  // boolean expression Cond is Val
 	FAlias                 // variable L currently equals expression R
+	FFresh                 // slice variable L refers to memory allocated by the library itself (not to caller memory)
 )
 
 type Fact struct {
@@ -278,6 +279,7 @@ type Flow struct {
 	ok      bool // fixpoint reached
 	iters   int
 	retBnd  func(call *ast.CallExpr) []retBound
+	resFresh func(call *ast.CallExpr) []bool // per result: freshly allocated by the callee
 }
 
 // retBound says: result ≤ len(arg[Arg]) - (Minus >= 0 ? arg[Minus] : 0).
@@ -309,9 +311,9 @@ func (m *Model) cfgOf(u *FuncUnit) *cfg.CFG {
 	return u.cfg
 }
 
-func newFlow(m *Model, ef *effects, u *FuncUnit, entry func(fl *Flow) []*Fact, retBnd func(call *ast.CallExpr) []retBound) *Flow {
+func newFlow(m *Model, ef *effects, u *FuncUnit, entry func(fl *Flow) []*Fact, retBnd func(call *ast.CallExpr) []retBound, resFresh func(call *ast.CallExpr) []bool) *Flow {
 	fl := &Flow{u: u, m: m, ef: ef, info: m.Info, g: m.cfgOf(u), at: newAtomTable(),
-		escaped: map[*types.Var]bool{}, fresh: map[*types.Var]bool{}, caseTag: map[ast.Expr]ast.Expr{}, retBnd: retBnd}
+		escaped: map[*types.Var]bool{}, fresh: map[*types.Var]bool{}, caseTag: map[ast.Expr]ast.Expr{}, retBnd: retBnd, resFresh: resFresh}
 	fl.raw = &canonCtx{info: m.Info, kindT: m.KindType}
 	fl.z = &linearizer{info: m.Info, cc: fl.raw, at: fl.at}
 	// escaped variables and switch tags
@@ -609,15 +611,32 @@ func (fl *Flow) applyNode(fs *FactSet, n ast.Node) {
 		} else {
 			fl.applyStore(fs, x.X)
 		}
-	case *ast.DeclStmt:
-		if gd, ok := x.Decl.(*ast.GenDecl); ok && gd.Tok == token.VAR {
-			for _, sp := range gd.Specs {
-				vs := sp.(*ast.ValueSpec)
+	case *ast.DeclStmt, *ast.ValueSpec:
+		// go/cfg adds each var ValueSpec of a declaration as a node of its own
+		var specs []ast.Spec
+		if ds, ok := x.(*ast.DeclStmt); ok {
+			if gd, ok := ds.Decl.(*ast.GenDecl); ok && gd.Tok == token.VAR {
+				specs = gd.Specs
+			}
+		} else {
+			specs = []ast.Spec{x.(*ast.ValueSpec)}
+		}
+		{
+			for _, sp := range specs {
+				vs, ok := sp.(*ast.ValueSpec)
+				if !ok {
+					continue
+				}
 				for i, nm := range vs.Names {
 					if v, _ := fl.info.ObjectOf(nm).(*types.Var); v != nil {
 						fs.killVar(v)
 						if len(vs.Values) == len(vs.Names) {
 							fl.defineInto(fs, nm, vs.Values[i])
+							if fl.freshExpr(vs.Values[i], fs, 0) {
+								fl.addFresh(fs, nm)
+							}
+						} else if _, isSlice := v.Type().Underlying().(*types.Slice); isSlice && len(vs.Values) == 0 {
+							fl.addFresh(fs, nm) // nil slice: appending to it allocates
 						} else if len(vs.Values) == 0 && isIntType(v.Type()) && !fl.escaped[v] {
 							lv := linAtom(varID(v))
 							fs.add(fl.linFact(lv, fl.m.pos(nm.Pos()), nm))
@@ -652,6 +671,22 @@ func (fl *Flow) applyAssign(fs *FactSet, x *ast.AssignStmt) {
 		fl.applyStore(fs, x.Lhs[0])
 		return
 	}
+	// freshness of the right-hand sides, evaluated before the assigned variables are killed
+	freshR := make([]bool, len(x.Lhs))
+	for i := range x.Lhs {
+		if len(x.Lhs) == len(x.Rhs) {
+			freshR[i] = fl.freshExpr(x.Rhs[i], fs, 0)
+		} else if len(x.Rhs) == 1 {
+			freshR[i] = fl.freshExpr(x.Rhs[0], fs, i)
+		}
+	}
+	defer func() {
+		for i, l := range x.Lhs {
+			if id, ok := ast.Unparen(l).(*ast.Ident); ok && id.Name != "_" && freshR[i] {
+				fl.addFresh(fs, id)
+			}
+		}
+	}()
 	var idents []*ast.Ident
 	for _, l := range x.Lhs {
 		if id, ok := ast.Unparen(l).(*ast.Ident); ok {
@@ -699,8 +734,17 @@ func (fl *Flow) applyAssign(fs *FactSet, x *ast.AssignStmt) {
 // applyStore handles a store to a non-identifier location.
 func (fl *Flow) applyStore(fs *FactSet, lhs ast.Expr) {
 	v, through := rootVar(fl.info, lhs)
-	if v != nil {
-		fs.killVar(v)
+	if v != nil && !through {
+		fs.killVar(v) // a field or element of a local value: the variable itself changes
+	}
+	if v != nil && through {
+		// the store goes through a pointer/slice held in v: v itself is unchanged, but facts
+		// that read memory through v are no longer valid
+		for k, f := range fs.m {
+			if f.derefs[v] {
+				delete(fs.m, k)
+			}
+		}
 	}
 	if v != nil && fl.fresh[v] {
 		return // a newly obtained object is not reachable through any other name
@@ -720,7 +764,8 @@ func (fl *Flow) applyCalls(fs *FactSet, n ast.Node) {
 				return true
 			}
 			if (isBuiltinCall(fl.info, c, "copy") || isBuiltinCall(fl.info, c, "clear")) && len(c.Args) > 0 {
-				fl.applyStore(fs, c.Args[0])
+				// copy/clear write the elements behind their first argument
+				fl.applyStore(fs, &ast.IndexExpr{X: c.Args[0], Index: &ast.BasicLit{Kind: token.INT, Value: "0"}})
 				return true
 			}
 			fs.killHeap()
@@ -847,6 +892,8 @@ func (fl *Flow) meet(a, b *FactSet) *FactSet {
 				if yCond[fmt.Sprintf("%s=%v", y.canon(f.Cond), f.Val)] {
 					out.m[k] = f
 				}
+			case FFresh:
+				// only identical facts survive (handled above)
 			case FAlias:
 				_ = yAlias
 				if y.canon(f.L) == y.canon(f.R) {
@@ -1051,4 +1098,69 @@ func (fl *Flow) setAtEdge(b *cfg.Block, i int) *FactSet {
 	fs := fl.setBefore(b, len(b.Nodes))
 	fl.edgeInto(fs, b, i)
 	return fs
+}
+
+func (fl *Flow) addFresh(fs *FactSet, id *ast.Ident) {
+	v, _ := fl.info.ObjectOf(id).(*types.Var)
+	if v == nil || fl.escaped[v] {
+		return
+	}
+	f := &Fact{Kind: FFresh, L: id, Origin: fl.m.pos(id.Pos()), objs: map[*types.Var]bool{v: true}, derefs: map[*types.Var]bool{}}
+	f.raw = "fresh:" + varID(v)
+	fs.add(f)
+}
+
+// isFresh: the variable currently refers to memory the library allocated itself.
+func (fs *FactSet) isFresh(v *types.Var) bool {
+	_, ok := fs.m["fresh:"+varID(v)]
+	return ok
+}
+
+// freshExpr: e evaluates to a slice (or string) that cannot alias memory of the caller.
+// resIdx selects the result of a multi-value call.
+func (fl *Flow) freshExpr(e ast.Expr, fs *FactSet, resIdx int) bool {
+	e = ast.Unparen(e)
+	if t := fl.info.TypeOf(e); t != nil {
+		if b, ok := t.Underlying().(*types.Basic); ok && b.Info()&types.IsString != 0 {
+			return true // strings are immutable
+		}
+		if _, isNil := t.(*types.Basic); isNil && t == types.Typ[types.UntypedNil] {
+			return true
+		}
+	}
+	switch x := e.(type) {
+	case *ast.CompositeLit:
+		return true
+	case *ast.Ident:
+		if v, _ := fl.info.ObjectOf(x).(*types.Var); v != nil {
+			return fs.isFresh(v)
+		}
+		return x.Name == "nil"
+	case *ast.SliceExpr:
+		return fl.freshExpr(x.X, fs, 0)
+	case *ast.CallExpr:
+		if isBuiltinCall(fl.info, x, "make") || isBuiltinCall(fl.info, x, "new") {
+			return true
+		}
+		if isBuiltinCall(fl.info, x, "append") && len(x.Args) > 0 {
+			return fl.freshExpr(x.Args[0], fs, 0)
+		}
+		if isConversion(fl.info, x) && len(x.Args) == 1 {
+			at := fl.info.TypeOf(x.Args[0])
+			if b, ok := at.Underlying().(*types.Basic); ok && b.Info()&types.IsString != 0 {
+				return true // string → []byte copies
+			}
+			return fl.freshExpr(x.Args[0], fs, 0)
+		}
+		switch fl.m.calleeName(x) {
+		case "bytes.Clone", "slices.Clone", "bytes.Repeat":
+			return true
+		}
+		if fl.resFresh != nil {
+			if r := fl.resFresh(x); resIdx < len(r) {
+				return r[resIdx]
+			}
+		}
+	}
+	return false
 }
